@@ -10,7 +10,7 @@ MCNets == {1, 2}
 (***************************************************************************)
 VARIABLE d
 
-AllDescriptors == Descriptors(SigBytePositions, OvDamages, UnDamages)
+AllDescriptors == Descriptors(SigBytePositions, OvDamages, UnDamages, NetDamages)
 
 Init == d \in AllDescriptors
 Next == UNCHANGED d
